@@ -210,9 +210,13 @@ func newReadSession(e *env, c Case) *session {
 		}
 		switch f.How {
 		case "flip":
-			(*raw)[len(*raw)/2] ^= 0x01
+			if len(*raw) > 0 {
+				(*raw)[len(*raw)/2] ^= 0x01
+			}
 		case "truncate":
-			*raw = (*raw)[:len(*raw)-64]
+			if len(*raw) >= 64 {
+				*raw = (*raw)[:len(*raw)-64]
+			}
 		case "extend":
 			*raw = append(*raw, s.garbage("data-extend", 64)...)
 		default:
